@@ -88,6 +88,7 @@ type vfwRun struct {
 	handlerReturned                bool
 	iniEnded, srcOpened, srcReturn bool
 	changed                        chan struct{}
+	holdT, holdS                   chan struct{} // non-nil: the proxy's Sends towards the initiator / the source wait (slow peer)
 }
 
 type vfwSrcCall struct {
@@ -267,7 +268,27 @@ func (s *vfwSrvStream) SendMsg(m any) error {
 		s.h.note(s.r, map[string]interface{}{"ev": "FaultFired", "k": "tgtSendFail"}, func() { s.r.ended = true })
 		return vfwFail(s.r.sc.Code, "verif: injected Send failure")
 	}
+	s.h.held(s.r, "T", s.Context())
 	return s.ServerStream.SendMsg(m)
+}
+
+// held: back-pressure. While the script holds that direction a Send of the proxy waits, as it does when the peer's flow-control
+// window is exhausted; it goes on when the script releases the direction or the stream's context is done.
+func (h *vfwHarness) held(r *vfwRun, dir string, ctx context.Context) {
+	h.mu.Lock()
+	g := r.holdT
+	if dir == "S" {
+		g = r.holdS
+	}
+	h.mu.Unlock()
+	if g == nil {
+		return
+	}
+	h.note(r, map[string]interface{}{"ev": "SendWaits", "dir": dir}, nil)
+	select {
+	case <-g:
+	case <-ctx.Done():
+	}
 }
 
 // stream interceptor of the proxy's grpc.Server: observes the handler's return, wraps the stream for tgtSendFail
@@ -317,6 +338,7 @@ func (s *vfwCliStream) Send(req *adminservice.StreamWorkflowReplicationMessagesR
 		s.h.note(s.r, map[string]interface{}{"ev": "FaultFired", "k": "srcSendFail"}, func() { s.r.ended = true })
 		return vfwFail(s.r.sc.Code, "verif: injected Send failure")
 	}
+	s.h.held(s.r, "S", s.Context())
 	return s.AdminService_StreamWorkflowReplicationMessagesClient.Send(req)
 }
 
@@ -552,7 +574,7 @@ func (h *vfwHarness) runSchedule(sc *vfwSched) {
 	nSrc, nIni := 0, 0
 	expired := false
 	for i, c := range sc.Cmds {
-		if sc.Sync {
+		if sc.Sync || c.C == "B" {
 			// delivery barrier: everything sent so far has arrived; once an end has happened: everything is torn down
 			ended := false
 			cond := func() bool {
@@ -578,6 +600,29 @@ func (h *vfwHarness) runSchedule(sc *vfwSched) {
 		call := r.src
 		h.mu.Unlock()
 		switch c.C {
+		case "B": // an explicit barrier in a racing script
+		case "TH", "SH": // the peer stops taking: the proxy's Sends in that direction wait
+			h.note(r, map[string]interface{}{"ev": "Hold", "dir": c.C[:1]}, func() {
+				if c.C == "TH" {
+					r.holdT = make(chan struct{})
+				} else {
+					r.holdS = make(chan struct{})
+				}
+			})
+		case "TR", "SR":
+			h.note(r, map[string]interface{}{"ev": "Release", "dir": c.C[:1]}, func() {
+				if c.C == "TR" && r.holdT != nil {
+					close(r.holdT)
+					r.holdT = nil
+				}
+				if c.C == "SR" && r.holdS != nil {
+					close(r.holdS)
+					r.holdS = nil
+				}
+			})
+		case "W": // the peer stays slow for this long (a duration of the environment, not a wait for the proxy)
+			ms, _ := strconv.Atoi(c.M)
+			time.Sleep(time.Duration(ms) * time.Millisecond)
 		case "S":
 			if call == nil {
 				h.note(r, map[string]interface{}{"ev": "Skipped", "i": i + 1, "c": c.C}, nil)
@@ -652,6 +697,16 @@ func (h *vfwHarness) runSchedule(sc *vfwSched) {
 			p.cancel()
 		}
 	}
+	h.note(r, nil, func() { // a script that ends while a direction is held: the peer takes again
+		if r.holdT != nil {
+			close(r.holdT)
+			r.holdT = nil
+		}
+		if r.holdS != nil {
+			close(r.holdS)
+			r.holdS = nil
+		}
+	})
 	// the property's progress clause: both peers see the end and the handler returns
 	ok := h.waitFor(r, torn)
 	h.mu.Lock()
